@@ -24,7 +24,7 @@ RULE = ("one case = one complete Simulator.run(): 1-6 stations (EVSE / DeadbandE
         "120/208/240/277), period 1/5/15, sessions per station with back-to-back reuse and gaps, Battery / "
         "Linear2StageBattery continuous / stepwise (noise 0 and, with a patched np.random.normal, noise > 0) at initial "
         "SoC around every regime boundary, scripted scheduler (max_recompute 1 / k / None, multi-period schedules, "
-        "non-zero pilots addressed to vacant stations); cross-cutting families on fractions of the runs: earlier simulation on the same network / reused EV objects, interleaved decoy simulation, returned objects scribbled on, re-registered stations, periods 7/0.5/2.5/4.1/(1/3), estimated_departure, scheduler failures (Exception/BaseException) with resume by run()/fresh scheduler/JSON, pilot dtypes and mapping order, a second interpreter with another PYTHONHASHSEED, Interface / DataFrame / direct network entry points; station ids whose lexicographic order differs from the registration order (S-8..S-11, mixed case, numeric strings, descending); ~30% of the plain-network runs pass through to_json()/from_json() (finished run reloaded, or check-pointed mid-run, reloaded, fresh scheduler, continued) and are observed on the reloaded object by station name; a quarter of the runs on contrib StochasticNetwork (random assignment, waiting queue, swaps, early departure; attach/detach logged per EVSE); ~10% malformed histories (one invalid pilot / a session plugged into an occupied station / an unregistered station): run() aborts and the model must fail at exactly that operation. "
+        "non-zero pilots addressed to vacant stations); cross-cutting families on fractions of the runs: earlier simulation on the same network / reused EV objects, interleaved decoy simulation, returned objects scribbled on, re-registered stations, periods 7/0.5/2.5/4.1/(1/3), estimated_departure, scheduler failures (Exception/BaseException) with resume by run()/fresh scheduler/JSON, pilot dtypes and mapping order, a second interpreter with another PYTHONHASHSEED, Interface / DataFrame / direct network entry points, analysis helpers asked on the interrupted simulator (post-mortem) and mid-run; station ids whose lexicographic order differs from the registration order (S-8..S-11, mixed case, numeric strings, descending); ~30% of the plain-network runs pass through to_json()/from_json() (finished run reloaded, or check-pointed mid-run, reloaded, fresh scheduler, continued) and are observed on the reloaded object by station name; a quarter of the runs on contrib StochasticNetwork (random assignment, waiting queue, swaps, early departure; attach/detach logged per EVSE); ~10% malformed histories (one invalid pilot / a session plugged into an occupied station / an unregistered station): run() aborts and the model must fail at exactly that operation. "
         "Distinct = distinct (network, sessions, pilot script); non-trivial = at least one period delivers energy")
 ASSUMPTIONS = ["theorems are over R (exact arithmetic); the implementation computes in IEEE doubles (values compared to 1e-9 relative)",
                "every session id is plugged at most once (C01) and station ids are distinct",
@@ -370,6 +370,7 @@ def run_history(inp, extra=None, midrun=None):
             if inp.get("decoy_at") == calls["n"]:
                 flags["decoy"] = run_decoy(inp, station_ids)
             if inp.get("probe"):
+                _REC["post_mortem"](self.interface._simulator, "scheduler")
                 # entry points through the Interface; the returned objects are scribbled on afterwards
                 lr = self.interface.last_actual_charging_rate
                 ses = self.interface.active_sessions()
@@ -407,7 +408,27 @@ def run_history(inp, extra=None, midrun=None):
     try:
         with warnings.catch_warnings():
             warnings.simplefilter("ignore")
-            sim = Simulator(net, Scripted(), EventQueue(events), datetime(2021, 3, 4), period=inp["period"], verbose=False)
+            def post_mortem(sim_, where):
+                # the analysis helpers are asked on the SAME simulator object in the middle of its life (post-mortem of an
+                # interrupted run, or a monitoring scheduler); what they say must match the record at that moment, and
+                # must not be remembered wrongly when they are asked again later
+                rn = np.array(sim_.charging_rates)
+                pm_log.append(dict(where=where, iteration=int(sim_.iteration),
+                                   agg_current=[float(x) for x in acnsim.analysis.aggregate_current(sim_)],
+                                   agg_power=[float(x) for x in acnsim.analysis.aggregate_power(sim_)],
+                                   total=float(acnsim.analysis.total_energy_delivered(sim_)),
+                                   want_current=[float(x) for x in rn.sum(axis=0)],
+                                   want_power=[float(x) for x in (np.array(sim_.network._voltages) @ rn) / 1000],
+                                   want_total=float(sum(ev.energy_delivered for ev in sim_.ev_history.values()))))
+            pm_log = []
+            _REC["post_mortem"] = post_mortem
+            signals = None
+            if inp.get("sim_tariff") is not None:
+                # the simulator's own tariff ("" = a signals dict without one)
+                from acnportal.signals.tariffs import TimeOfUseTariff
+                signals = {"tariff": TimeOfUseTariff(inp["sim_tariff"])} if inp["sim_tariff"] else {}
+            sim = Simulator(net, Scripted(), EventQueue(events), datetime(2021, 3, 4, *inp.get("start_hm", [0, 0])),
+                            period=inp["period"], signals=signals, verbose=False)
             try:
                 while True:
                     try:
@@ -417,6 +438,7 @@ def run_history(inp, extra=None, midrun=None):
                         # the scheduler failed in the middle of the run; resume: run() again with the same scheduler
                         # object / with a fresh one / after a to_json()-from_json() round trip with a fresh one
                         flags["interrupted"] += 1
+                        post_mortem(sim, "interrupted")
                         mode = cp.args[0] if cp.args else "json"
                         if mode == "json":
                             sim = Simulator.from_json(sim.to_json())
@@ -457,6 +479,7 @@ def run_history(inp, extra=None, midrun=None):
                                  rate=float(ev.current_charging_rate), requested=float(ev.requested_energy)))
             out["sessions"] = sess
             out["interrupted"] = flags["interrupted"]
+            out["post_mortem"] = pm_log
             out["probe"] = probe_log
             out["net_rates"] = _REC["net_rates"]
             out["flag_msgs"] = [flags[k] for k in ("mutated", "decoy") if flags.get(k)]
@@ -866,6 +889,15 @@ def monitor_probes(inp, impl):
     """the same quantities read through the other public entry points (direct network call each period, the
     DataFrame view, the Interface inside the scheduler), and robustness against the caller scribbling on them"""
     rates, occ = impl["rates"], impl["occ"]
+    for pm in impl.get("post_mortem", []):
+        for key, label in (("current", "aggregate_current"), ("power", "aggregate_power")):
+            got, want = pm["agg_" + key], pm["want_" + key]
+            if len(got) != len(want) or any(not close(g, w) for g, w in zip(got, want)):
+                return "%s asked at iteration %d (%s) = %r, the record at that moment gives %r" % (
+                    label, pm["iteration"], pm["where"], got[:8], want[:8])
+        if not close(pm["total"], pm["want_total"]):
+            return "total_energy_delivered asked at iteration %d (%s) = %r, sessions so far received %r" % (
+                pm["iteration"], pm["where"], pm["total"], pm["want_total"])
     for t, row in enumerate(impl.get("net_rates", [])[:len(rates)]):
         if [float(x) for x in row] != [float(x) for x in rates[t]]:
             return "network.current_charging_rates in period %d was %r but Simulator.charging_rates records %r" % (t, row, rates[t])
